@@ -1564,6 +1564,31 @@ def r_sort(ctx, eqn, *ops):
     return [np.moveaxis(o, -1, dim) for o in ops]
 
 
+@rule("top_k")
+def r_top_k(ctx, eqn, a):
+    """values and indices of the k largest entries along the last axis, in descending order, ties to the lower index"""
+    a = obj(a)
+    k = eqn.params["k"]
+    n = a.shape[-1]
+    vals = np.empty(a.shape[:-1] + (k,), dtype=object)
+    idxs = np.empty(a.shape[:-1] + (k,), dtype=object)
+    for b in np.ndindex(*a.shape[:-1]):
+        row = [a[b + (j,)] for j in range(n)]
+        taken = [FALSE] * n
+        for r in range(k):
+            best_v, best_i, have = None, None, FALSE
+            for j in range(n):
+                free = s_not(taken[j])
+                better = free if z3.is_false(have) else s_and(free, s_or(s_not(have), s_gt(row[j], best_v)))
+                best_v = row[j] if best_v is None else s_ite(better, row[j], best_v)
+                best_i = IV(j) if best_i is None else s_ite(better, IV(j), best_i)
+                have = s_or(have, free)
+            vals[b + (r,)] = best_v
+            idxs[b + (r,)] = best_i
+            taken = [s_or(taken[j], s_eq(best_i, IV(j))) for j in range(n)]
+    return [vals, idxs]
+
+
 # ---- call-like ----------------------------------------------------------------------
 def _closed(j):
     """return (jaxpr, consts) for Jaxpr or ClosedJaxpr"""
@@ -1572,7 +1597,7 @@ def _closed(j):
     return j, ()
 
 
-@rule("pjit", "jit", "closed_call", "core_call", "remat", "checkpoint", "custom_lin")
+@rule("pjit", "jit", "closed_call", "core_call", "remat", "remat2", "checkpoint", "custom_lin")
 def r_call(ctx, eqn, *args):
     j = eqn.params.get("jaxpr") or eqn.params.get("call_jaxpr")
     jp, consts = _closed(j)
